@@ -88,6 +88,12 @@ theorem path_decode_encode (items : List Bytes) (h : ∀ it ∈ items, it.length
     pathDecode (pathEncode items) = .ok items :=
   pathDecode_encode items h hn
 
+/-- File list record (field 200): decoding an emitted record yields the record, and the
+    name-size prefix equals the number of name bytes that follow. -/
+theorem file_name_with_info_decode_encode (f : FileNameWithInfo) (h : f.WF) :
+    FileNameWithInfo.decode f.encode = .ok f ∧ f.encode.length = 20 + f.name.length :=
+  ⟨FileNameWithInfo.decode_encode' f h, FileNameWithInfo.encode_length f h⟩
+
 /-- The emitted bytes do not depend on the sizes of the buffers the encoder is drained through,
     and emission terminates: for *every* script of buffer sizes ≥ 1 with at least |bytes|+1
     entries the drained output is exactly the layout and the last call reports EOF. -/
@@ -138,6 +144,8 @@ example : Transaction.decode (Transaction.encode ⟨0, 1, 107, 7, 0, [⟨105, [0
     = .ok ⟨0, 1, 107, 7, 0, [⟨105, [0x98]⟩, ⟨106, []⟩]⟩ := by decide +kernel
 example : pathDecode (pathEncode [[100, 105, 114], [115, 117, 98]]) = .ok [[100, 105, 114], [115, 117, 98]] := by decide
 example : User.decode (User.encode ⟨1, 2, 3, [65, 66]⟩) = .ok (⟨1, 2, 3, [65, 66]⟩, 10) := by decide
+example : (⟨[84, 69, 88, 84], [116, 116, 120, 116], 5, [0, 0, 0, 0], 0, [97, 46, 116]⟩ : FileNameWithInfo).WF := by
+  simp [FileNameWithInfo.WF]
 example : drain [1, 2, 3, 4, 5] [2, 1, 1, 7, 1, 1] 0 = ⟨[1, 2, 3, 4, 5], 5, true⟩ := by decide
 
 end Mobius.C01
